@@ -75,6 +75,10 @@ class ExprMixin:
             st.assume(Val.is_R(t))
             st.wf_ref(Val.r(t))
             return V("ref", Val.r(t), cls="iterable")
+        if ty.endswith("?") and ty[:-1] in ("int", "bool", "str", "bytes", "float"):
+            rec = {"int": Val.is_I, "bool": Val.is_B, "str": Val.is_S, "bytes": Val.is_Y, "float": Val.is_F}[ty[:-1]]
+            st.assume(z3.Or(Val.is_N(t), rec(t)))
+            return V("val", t)
         if ty.endswith("?"):
             base, elem = split_type(ty[:-1])
             r = Val.r(t)
